@@ -896,7 +896,7 @@ func ruleImportHashVerified(c *core.Ctx) {
 		env := envs[sc.D]
 		for _, ft := range fs {
 			if t := astx.AsFeatureTest(info, ft.Cond); t != nil && t.Feature == "HASH_LOGS" {
-				if t.Value == "SYNC" && ft.Positive {
+				if t.Value == "SYNC" && ft.Positive != t.Flip {
 					sync = true
 				} else {
 					wrongFeature = true
